@@ -143,7 +143,7 @@ class Stalled(Exception):
 
 
 class RecordingBudget(SearchBudget):
-    def __init__(self, inner, events, target=None, tol=0.0001, stall_limit=40, ffcount=None, max_checks=300):
+    def __init__(self, inner, events, target=None, tol=0.0001, stall_limit=40, ffcount=None, max_checks=300, mtargets=None):
         self.inner = inner
         self.events = events
         self.target = target
@@ -155,11 +155,13 @@ class RecordingBudget(SearchBudget):
         self.ff_at_stall_start = 0
         self.max_checks = max_checks
         self.nchecks = 0
+        self.mtargets = mtargets    # multi-objective target budgets: one target per component (tolerance 0.001)
 
     def is_done(self, tracker):
         done = bool(self.inner.is_done(tracker))
         count = tracker.get_number_evaluations()
         hasbest, c = False, 0.0
+        cs = []
         if isinstance(tracker, SingleObjectiveProgressTracker):
             b = tracker.get_best_individual()
             if b is not None:
@@ -167,13 +169,17 @@ class RecordingBudget(SearchBudget):
         else:
             fr = tracker.get_best_individuals()
             if fr:
-                hasbest, c = True, fr[0].get_fitness(tracker.get_problem()).fitness_components[0]
+                comps = fr[0].get_fitness(tracker.get_problem()).fitness_components
+                hasbest, c = True, comps[0]
+                if self.mtargets is not None:
+                    for ck, tk in zip(comps, self.mtargets):
+                        cs.append(ranks([ck, tk - 0.001, tk + 0.001]))
         if self.target is not None:
             rk = ranks([c, self.target - self.tol, self.target + self.tol])
         else:
             rk = [0, 0, 0]
         self.events.append({"e": "check", "count": count, "done": done, "hasbest": hasbest,
-                            "c": rk[0], "tlo": rk[1], "thi": rk[2]})
+                            "c": rk[0], "tlo": rk[1], "thi": rk[2], "cs": cs})
         self.nchecks += 1
         if not done and self.nchecks >= self.max_checks:
             # watchdog: far more checks than any budget of the driver needs
